@@ -5,14 +5,182 @@ From UPF Require Import Base.LTS Model.Teardown Proofs.TeardownInv
 Import ListNotations.
 Open Scope list_scope.
 
-Lemma ainv_step sess me r alt nd a nd' a' t' :
+Lemma step_assoc sess me r alt nd a res :
   is_assoc_role r = true -> AInv sess a ->
-  thread_step me r alt nd a (get_thr a r) = Ok (nd', a', t') ->
-  AInv sess (set_thr a' r t').
+  thread_step me r alt nd a (get_thr a r) = res ->
+  match res with
+  | Ok (nd', a', t') => AInv sess (set_thr a' r t') /\ node_frame nd nd'
+  | Blocked => True
+  | Panic _ => cclosed (n_pcd nd) = true
+  end.
 Proof.
   intros Hr. destruct r; try discriminate Hr.
-  - apply ainv_step_rd.
-  - apply ainv_step_sel.
-  - apply ainv_step_hb.
-  - apply ainv_step_fst.
+  - apply step_rd.
+  - apply step_sel.
+  - apply step_hb.
+  - apply step_fst.
+Qed.
+
+(* ================================================================== lists *)
+Lemma nth_error_upd_same {A} (l : list A) i x y : nth_error l i = Some y -> nth_error (upd l i x) i = Some x.
+Proof. revert i. induction l as [|a l IH]; intros [|i] H; cbn in *; try discriminate; auto. Qed.
+Lemma nth_error_upd_other {A} (l : list A) i j x : i <> j -> nth_error (upd l i x) j = nth_error l j.
+Proof.
+  revert i j. induction l as [|a l IH]; intros [|i] [|j] H; cbn; try reflexivity; try congruence.
+  apply IH. congruence.
+Qed.
+Lemma upd_length {A} (l : list A) i x : List.length (upd l i x) = List.length l.
+Proof. revert i. induction l as [|a l IH]; intros [|i]; cbn; auto. Qed.
+
+Lemma Forall2_nth {A B} (P : A -> B -> Prop) la lb i b :
+  Forall2 P la lb -> nth_error lb i = Some b -> exists a, nth_error la i = Some a /\ P a b.
+Proof.
+  intros H. revert i. induction H as [|x y la lb Hxy H IH]; intros [|i] Hn; cbn in *; try discriminate.
+  - injection Hn as <-. eauto.
+  - apply IH. exact Hn.
+Qed.
+Lemma Forall2_nth_l {A B} (P : A -> B -> Prop) la lb i a :
+  Forall2 P la lb -> nth_error la i = Some a -> exists b, nth_error lb i = Some b /\ P a b.
+Proof.
+  intros H. revert i. induction H as [|x y la lb Hxy H IH]; intros [|i] Hn; cbn in *; try discriminate.
+  - injection Hn as <-. eauto.
+  - apply IH. exact Hn.
+Qed.
+Lemma Forall2_upd {A B} (P : A -> B -> Prop) la lb i a b :
+  Forall2 P la lb -> nth_error la i = Some a -> P a b -> Forall2 P la (upd lb i b).
+Proof.
+  intros H. revert i. induction H as [|x y la lb Hxy H IH]; intros [|i] Hn Hp; cbn in *; try discriminate.
+  - injection Hn as <-. constructor; assumption.
+  - constructor; [assumption|]. apply IH; assumption.
+Qed.
+
+(* ================================================================== the invariant holds in every reachable state *)
+Definition GInv (cfg : list acfg) (s : state) : Prop := Forall2 AInv (map c_sess cfg) (s_asc s).
+
+Lemma ainv_init c : AInv (c_sess c) (init_assoc c).
+Proof.
+  destruct c as [sess hb [d|]]; destruct hb; unfold AInv, fn_ok, Data, init_assoc; cbn;
+  repeat (split; try reflexivity); try (right; split; [reflexivity|discriminate]).
+Qed.
+
+Lemma ginv_init cap cfg ev : GInv cfg (init_cap cap cfg ev).
+Proof.
+  unfold GInv, init_cap. cbn. induction cfg as [|c r IH]; cbn; constructor; [apply ainv_init|exact IH].
+Qed.
+
+Lemma ainv_set_inbox sess a v : AInv sess a -> AInv sess (set_inbox a v).
+Proof. destruct a. unfold AInv, fn_ok, Data. cbn. destruct a_once as [|r|]; cbn; tauto. Qed.
+Lemma ainv_set_tmo_armed sess a v : AInv sess a -> AInv sess (set_tmo_armed a v).
+Proof. destruct a. unfold AInv, fn_ok, Data. cbn. destruct a_once as [|r|]; cbn; tauto. Qed.
+Lemma ainv_set_hb_armed sess a v : AInv sess a -> AInv sess (set_hb_armed a v).
+Proof. destruct a. unfold AInv, fn_ok, Data. cbn. destruct a_once as [|r|]; cbn; tauto. Qed.
+
+Lemma ginv_env cfg s e : GInv cfg s -> GInv cfg (apply_env s e).
+Proof.
+  unfold GInv. intros H. destruct e as [i d|i|i| |]; cbn; try exact H;
+    destruct (nth_error (s_asc s) i) as [a|] eqn:E; cbn; try exact H;
+    destruct (Forall2_nth _ _ _ _ _ H E) as (se & Hs & Ha);
+    eapply Forall2_upd; eauto using ainv_set_inbox, ainv_set_tmo_armed, ainv_set_hb_armed.
+Qed.
+
+Lemma ginv_step cfg s l s' : GInv cfg s -> step s l = Some s' -> GInv cfg s'.
+Proof.
+  intros Hg H. unfold step in H. destruct (dead s); [discriminate|].
+  destruct l as [k|alt| |i r alt].
+  - destruct (nth_error (s_env s) k); [|discriminate]. injection H as <-. unfold GInv. cbn. apply ginv_env. exact Hg.
+  - destruct (Nat.leb 3 alt); [discriminate|].
+    destruct (thread_step 0 RNode alt (s_node s) assoc0 (n_thr (s_node s))) as [[[nd' a'] t']| |site];
+      try discriminate; injection H as <-; exact Hg.
+  - destruct (thread_step 0 RStop 0 (s_node s) assoc0 (n_stop (s_node s))) as [[[nd' a'] t']| |site];
+      try discriminate; injection H as <-; exact Hg.
+  - destruct (negb (is_assoc_role r) || (Nat.leb 3 alt)) eqn:Eg; [discriminate|].
+    apply orb_false_elim in Eg. destruct Eg as [Er _]. apply negb_false_iff in Er.
+    destruct (nth_error (s_asc s) i) as [a|] eqn:Ea; [|discriminate].
+    destruct (Forall2_nth _ _ _ _ _ Hg Ea) as (se & Hs & Ha).
+    pose proof (step_assoc se (N.of_nat i) r alt (s_node s) a _ Er Ha eq_refl) as Hstep.
+    destruct (thread_step (N.of_nat i) r alt (s_node s) a (get_thr a r)) as [[[nd' a'] t']| |site];
+      try discriminate; injection H as <-; unfold GInv; cbn.
+    + destruct Hstep as [Hi _]. eapply Forall2_upd; eauto.
+    + exact Hg.
+Qed.
+
+Lemma ginv_reach cfg ev s : reach (init cfg ev) s -> GInv cfg s.
+Proof.
+  intros H. unfold reach in H.
+  eapply (reach_inv state tid step (GInv cfg)); [apply ginv_init | intros; eapply ginv_step; eauto | exact H].
+Qed.
+
+(* ================================================================== at most once / exactly once *)
+Lemma count_app x a b : count x (a ++ b) = count x a + count x b.
+Proof. induction a as [|y a IH]; cbn; [reflexivity|]. rewrite IH. lia. Qed.
+Lemma count_notin x l : ~ In x l -> count x l = 0.
+Proof.
+  induction l as [|y l IH]; cbn; [reflexivity|]. intros H. destruct (N.eqb_spec x y) as [->|Hn]; [tauto|].
+  apply IH. tauto.
+Qed.
+Lemma count_nodup x l : NoDup l -> count x l <= 1.
+Proof.
+  induction 1 as [|y l Hn Hd IH]; cbn; [lia|]. destruct (N.eqb_spec x y) as [->|Hne]; [|exact IH].
+  rewrite count_notin by exact Hn. lia.
+Qed.
+Lemma count_in_nodup x l : NoDup l -> In x l -> count x l = 1.
+Proof.
+  induction 1 as [|y l Hn Hd IH]; cbn; [tauto|]. intros [->|Hi].
+  - rewrite N.eqb_refl, count_notin by exact Hn. reflexivity.
+  - destruct (N.eqb_spec x y) as [->|Hne]; [tauto|]. apply IH. exact Hi.
+Qed.
+
+(* the delete commands issued so far are always a prefix of the association's session list *)
+Lemma ainv_prefix sess a : AInv sess a -> exists rest, a_del a ++ rest = sess.
+Proof.
+  intros (Hrd & Hsel & Hhb & Hfst & Hd & _). unfold Data in Hd. destruct (a_once a) as [|r0|].
+  - destruct Hd as (-> & _). exists sess. reflexivity.
+  - destruct Hd as [_ Hb]. unfold Body in Hb.
+    destruct (t_pc (get_thr a r0)) as [|[|[|[|[|[|[|[|p]]]]]]]]; try (exfalso; exact Hb).
+    + destruct Hb as (-> & _). exists sess. reflexivity.
+    + destruct Hb as (-> & _). exists sess. reflexivity.
+    + destruct Hb as (-> & _). exists sess. reflexivity.
+    + destruct Hb as (x & r & _ & _ & H & _). eauto.
+    + destruct Hb as (x & r & d & _ & _ & -> & H & _). exists r. rewrite <- app_assoc. exact H.
+    + destruct Hb as (-> & _). exists []. apply app_nil_r.
+    + destruct Hb as (-> & _). exists []. apply app_nil_r.
+    + destruct Hb as (-> & _). exists []. apply app_nil_r.
+  - destruct Hd as (-> & _). exists []. apply app_nil_r.
+Qed.
+
+Lemma ainv_at_most_once sess a x : AInv sess a -> NoDup sess -> count x (a_del a) <= 1.
+Proof.
+  intros Ha Hn. destruct (ainv_prefix _ _ Ha) as [rest <-].
+  pose proof (count_nodup x _ Hn) as H. rewrite count_app in H. lia.
+Qed.
+
+Lemma ainv_done_exact sess a : AInv sess a -> a_once a = ODone -> a_del a = sess /\ a_store a = [].
+Proof. intros (_ & _ & _ & _ & Hd & _) Ho. unfold Data in Hd. rewrite Ho in Hd. tauto. Qed.
+
+Definition nodup_cfg (cfg : list acfg) : Prop := forall c, In c cfg -> NoDup (c_sess c).
+
+Theorem at_most_once_all cfg ev sch i x :
+  nodup_cfg cfg -> deleted (run (init cfg ev) sch) i x <= 1.
+Proof.
+  intros Hn. unfold deleted.
+  destruct (nth_error (s_asc (run (init cfg ev) sch)) i) as [a|] eqn:E; [|lia].
+  assert (Hg : GInv cfg (run (init cfg ev) sch)) by (apply (ginv_reach cfg ev); apply (reach_run state tid step)).
+  destruct (Forall2_nth _ _ _ _ _ Hg E) as (se & Hs & Ha).
+  apply (ainv_at_most_once se); [exact Ha|].
+  apply nth_error_In in Hs. apply in_map_iff in Hs. destruct Hs as (c & <- & Hc). apply Hn. exact Hc.
+Qed.
+
+Theorem ended_exactly_once cfg ev sch i c a :
+  nodup_cfg cfg -> nth_error cfg i = Some c ->
+  nth_error (s_asc (run (init cfg ev) sch)) i = Some a -> a_once a = ODone ->
+  a_store a = [] /\ forall x, In x (c_sess c) -> deleted (run (init cfg ev) sch) i x = 1.
+Proof.
+  intros Hn Hc Ea Ho.
+  assert (Hg : GInv cfg (run (init cfg ev) sch)) by (apply (ginv_reach cfg ev); apply (reach_run state tid step)).
+  destruct (Forall2_nth _ _ _ _ _ Hg Ea) as (se & Hs & Ha).
+  assert (se = c_sess c) as ->.
+  { rewrite nth_error_map, Hc in Hs. cbn in Hs. congruence. }
+  destruct (ainv_done_exact _ _ Ha Ho) as [Hd Hst]. split; [exact Hst|].
+  intros x Hx. unfold deleted. rewrite Ea, Hd. apply count_in_nodup; [|exact Hx].
+  apply Hn. eapply nth_error_In; eauto.
 Qed.
